@@ -79,6 +79,8 @@ def corpus(ctx):
         progs["fam_" + n] = (p, False)
     for i in range(25 if ctx.tier == "quick" else 300):
         progs["gen_%d_%d" % (ctx.seed, i)] = (Gen(ctx.seed * 5000011 + i).program(), False)
+    for i in range(10 if ctx.tier == "quick" else 100):       # HashMap objects: entries hold references too
+        progs["genmap_%d_%d" % (ctx.seed, i)] = (Gen(ctx.seed * 5000011 + 500000 + i, features={"maps": True}).program(), False)
     return progs
 
 
